@@ -39,7 +39,7 @@ def plan(tier, seed):
         # the seed's algorithm: all CONNECT shapes x all flag combinations x near-miss classes, 2 users x 3 storable passwords
         specs.append(spec("main_" + main, "ascii", main, stored=stored, user_miss=["unk"] + rot(["u1.pre", "u1.case", "u1.max", "x.empty", "u1.ext"], seed, 1),
                           pass_miss=["ext", "rep"] + rot(["nul", "max", "hashof", "cas", "pre"], seed, 1),
-                          shapes=SHAPES[:3] + rot(SHAPES[3:], seed, 1), man_none=["own"], man_victim=["victim+will"],
+                          shapes=SHAPES, man_none=["own"], man_victim=["victim+will"],
                           prephases=rot(PREPHASES, seed, 2), prevers=rot(PREVERS, seed, 1), workers=16))
         # the other algorithms: both users, 2 storable passwords, fewer classes, other concretisations
         packs = rot(["nested", "unicode", "yaml", "ascii"], seed, 3)
@@ -87,7 +87,7 @@ def plan(tier, seed):
             specs.append(spec("relsame_" + a, "ascii", a, **kw))
         # the seed's algorithm once more with the deviation `authmethod_rejected`: behind the refused Authentication Method
         # CONNECTs nothing else may differ (their state projection is skipped in the strict packs)
-        specs.append(spec("amdev_" + main, "ascii", main, stored=["b", "emp"], user_miss=["unk"], pass_miss=["ext"], shapes=["v5", "v5am", "v5amd"],
+        specs.append(spec("amdev_" + main, "ascii", main, stored=["b", "emp"], user_miss=["unk"], pass_miss=["ext"], shapes=["v5", "v5am", "v5amd", "v5am0"],
                           man_victim=["victim", "victim+will"], prekinds=["connect2"], dev=["authmethod_rejected"], after_takeover=True))
         for i, a in enumerate(rot(ALGOS, seed, 2)):
             specs.append(spec("ws_" + a, "ascii", a, stored=["b", "emp"], lns=["tcp", "ws"], shapes=SHAPES[:3] + rot(SHAPES[3:], seed + i, 1), pass_miss=["ext", "nul"], user_miss=["unk"],
@@ -98,7 +98,7 @@ def plan(tier, seed):
 def run(ctx):
     ctx.cov["rule"] = ("every (state, operation) pair of AuthGate.tla per pack is replayed on a fresh real broker with the real auth plugin "
                        "(prefix = BFS path): Update/Delete through the plugin's handlers, Restart = Stop + new broker on the same password file, "
-                       "CONNECT over shapes {v3.1, v3.1.1, v5, v5+AuthMethod, v5+AuthMethod+AuthData} x user-name/password flags x user classes "
+                       "CONNECT over shapes {v3.1, v3.1.1, v5, v5+AuthMethod, v5+AuthMethod+AuthData, v5+zero-length AuthMethod} x user-name/password flags x user classes "
                        "(stored, prefix, case/normal form, extension, 65535 bytes, empty, unknown) x password classes (stored, prefix, case, empty, "
                        "extension, trailing NUL, password NUL password, 65535 bytes, the stored hash text) x client id own/victim x will, unauthenticated packet sequences "
                        "(SUBSCRIBE, PUBLISH retained/clearing/to the victim, UNSUBSCRIBE, PINGREQ, AUTH, DISCONNECT, 2nd CONNECT with valid credentials) "
